@@ -60,3 +60,5 @@ package types
 // begin-blocker returns the error and the block cannot be finalized)
 //@ func (p Params) Validate
 //@ ensures err == nil ==> p.OracleRewardPercentage <= 100
+// C09: the number of sampling tries is converted to int by GetRandomValidators; accepted values must survive that
+//@ ensures err == nil ==> 1 <= p.SamplingTryCount && p.SamplingTryCount <= MaxInt64
